@@ -108,6 +108,10 @@ def make_input(T, seed):
             return Image.fromarray(arr[:, :, 0], mode="L")
         return Image.fromarray(arr, mode="RGB")
     if k == "tensor":
+        if int(seed) % 2:
+            # 8-bit quantised like to_tensor(PIL image): contains exact 0.0 / 1.0 (saturated pixels sit on the boundaries of
+            # solarize / threshold / clamp, so that draws which only matter there become visible)
+            return torch.from_numpy(g.integers(0, 256, size=(T["c"], T["h"], T["w"])).astype(np.float32) / 255.0)
         return torch.from_numpy(g.random(size=(T["c"], T["h"], T["w"]), dtype=np.float32))
     if k == "patches":
         return torch.from_numpy(g.random(size=(T["c"], T["l"], T["ph"], T["pw"]), dtype=np.float32))
